@@ -245,17 +245,23 @@ func (rs *bodyStream) skipRest() error {
 
 		strCRLFLen := len(bytestr.StrCRLF)
 		for {
-			chunkSize, err := utils.ParseChunkSize(rs.reader)
-			if err != nil {
-				return err
-			}
-
+			// first the rest of the chunk the handler stopped in, then whole chunks
+			chunkSize := rs.chunkLeft
+			rs.chunkLeft = 0
 			if chunkSize == 0 {
-				rs.chunkEOF = true
-				return SkipTrailer(rs.reader)
+				var err error
+				chunkSize, err = utils.ParseChunkSize(rs.reader)
+				if err != nil {
+					return err
+				}
+
+				if chunkSize == 0 {
+					rs.chunkEOF = true
+					return SkipTrailer(rs.reader)
+				}
 			}
 
-			err = rs.reader.Skip(chunkSize)
+			err := skipBytes(rs.reader, chunkSize)
 			if err != nil {
 				return err
 			}
@@ -295,32 +301,35 @@ func (rs *bodyStream) skipRest() error {
 	}
 
 	// must skip size
-	for {
-		skip := rs.reader.Len()
+	return skipBytes(rs.reader, needSkipLen)
+}
+
+// skipBytes discards the next n bytes of r, waiting for them to arrive if necessary.
+func skipBytes(r network.Reader, n int) error {
+	for n > 0 {
+		skip := r.Len()
 		if skip == 0 {
-			_, err := rs.reader.Peek(1)
+			_, err := r.Peek(1)
 			if err != nil {
 				return err
 			}
-			skip = rs.reader.Len()
+			skip = r.Len()
 		}
-		if skip > needSkipLen {
-			skip = needSkipLen
+		if skip > n {
+			skip = n
 		}
-		err := rs.reader.Skip(skip)
+		err := r.Skip(skip)
 		if err != nil {
 			return err
 		}
 		// After Skip, the buffer needs to be released to prevent OOM if there are too much data on conn.
-		err = rs.reader.Release()
+		err = r.Release()
 		if err != nil {
 			return err
 		}
-		needSkipLen -= skip
-		if needSkipLen == 0 {
-			return nil
-		}
+		n -= skip
 	}
+	return nil
 }
 
 // ReleaseBodyStream releases the body stream.
